@@ -14,6 +14,7 @@ static std::string PROP, TIER = "quick";
 static int SHARD = 0, NSH = 1;
 static Uci* g_uci;
 static uint64_t g_run_index = 0;
+static bool g_inproc = false;
 
 static bool mine()
 {
@@ -96,7 +97,10 @@ static int solver_cap() { return TIER == "quick" ? 3 : 4; }
 static sess::Outcome run_and_check(Session& s, bool check = true)
 {
     s.spec.lines = s.lines;
-    sess::Outcome o = sess::run(*g_uci, s.spec);
+    auto t_begin = std::chrono::high_resolution_clock::now();
+    sess::Outcome o = g_inproc ? sess::run_inproc(*g_uci, s.spec) : sess::run(*g_uci, s.spec);
+    double dt = std::chrono::duration<double>(std::chrono::high_resolution_clock::now() - t_begin).count();
+    if (dt > 3.0 && getenv("VERIF_SLOW")) fprintf(stderr, "SLOW %.1fs visits=%lld %s\n", dt, o.visits.empty() ? -1LL : o.visits.back(), spec_json(s).c_str());
     R.count("sessions");
     if (!check) return o;
     ref::Pos root;
@@ -307,7 +311,7 @@ static void list_limits()
 {
     mc::Subspace sub;
     sub.name = "limits";
-    sub.bound = "seed positions x go-limit alphabet (depth, nodes, movetime, clocks incl. zero/negative, default) x searchmoves {none, singletons(<=3), first pair}; virtual clock +1 ms/read for time limits";
+    sub.bound = "seed positions x go-limit alphabet (depth, nodes, movetime, clocks incl. zero/negative, default) x searchmoves {none, singletons(<=3), first pair}; virtual clock +25 ms/read for time limits";
     bool q = TIER == "quick";
     for (auto& sp : SEEDS)
     {
@@ -319,17 +323,18 @@ static void list_limits()
         };
         int maxd = sp.cls == 0 ? (q ? 4 : 6) : sp.cls == 1 ? (q ? 2 : 4) : (q ? 1 : 2);
         for (int d = 1; d <= maxd; ++d) add("go depth " + std::to_string(d), 0);
-        if (sp.cls < 2)
+        if (sp.cls == 0)
         {
             for (const char* n : {"1", "4095", "4096", "4097"}) add(std::string("go nodes ") + n, 0);
             add("go", 0);
             add("go wtime 0 btime 0", 0);
         }
-        for (const char* t : {"1", "-5", "20"}) add(std::string("go movetime ") + t, 1);
+        // virtual clock: +25 ms per read, so a 500 ms budget (single root move) ends after 20 polls
+        for (const char* t : {"1", "-5", "20"}) add(std::string("go movetime ") + t, 25);
         for (const char* t : {"1", "-100", "300"})
             for (const char* extra : {"", " winc 100 binc 100", " movestogo 1", " movestogo 40 winc 1000 binc 1000"})
-                add(std::string("go wtime ") + t + " btime " + t + extra, 1);
-        add("go depth 2 movetime 1", 1);
+                add(std::string("go wtime ") + t + " btime " + t + extra, 25);
+        add("go depth 2 movetime 1", 25);
         for (size_t gi = 0; gi < gos.size(); ++gi)
             for (auto& sm : sm_variants(sp.fen, false))
             {
@@ -651,7 +656,7 @@ static void list_depths()
     for (auto& sp : SEEDS)
     {
         if (sp.cls == 2) continue;
-        for (int step : {1, 2, 5, 50, 1000})
+        for (int step : {5, 10, 25, 50, 100, 1000})
             for (const char* g : {"go movetime 100", "go wtime 1000 btime 1000", "go wtime 60000 btime 60000 winc 1000 binc 1000 movestogo 10", "go movetime 100 searchmoves @0"})
             {
                 std::string go = g;
@@ -660,6 +665,8 @@ static void list_depths()
                     auto ms = legal_ucis(sp.fen);
                     go = "go movetime 100 searchmoves " + ms[0];
                 }
+                // keep budget / step below ~200 polls so that the run ends inside the node horizon
+                if (go.find("60000") != std::string::npos && step < 100) continue;
                 if (!mine()) continue;
                 if (R.out_of_time()) goto done;
                 Session s = base(sp.fen, go, std::string("clock:") + sp.name);
@@ -690,6 +697,7 @@ int main(int argc, char** argv)
         else if (a == "--seed") seed = strtoull(argv[++i], nullptr, 10);
         else if (a == "--deadline") R.deadline_s = atof(argv[++i]);
         else if (a == "--replay") replay = argv[++i];
+        else if (a == "--inproc") g_inproc = true;
         else if (a == "--shard")
         {
             std::string v = argv[++i];
